@@ -21,7 +21,7 @@ RULE = ("spec->code: the 256 combinations of unit classes {M, FT, .1IN, other}^4
         "dialect kwargs), to_excel (re-opened with openpyxl), df() and set_data_from_df(df()); all observations validated by "
         "Trace_Views.  Distinct by (object, export, options).")
 
-SPELL = {"M": ["M", "m", "METER", "meters", "Metres", "METRE", "metre", "м", "метер"],
+SPELL = {"M": ["M", "m", "METER", "meters", "Metres", "METRE", "metre", "м", "метер", "М", "МЕТЕР", "Метер"],
          "FT": ["FT", "ft", "F", "f", "FEET", "feet", "Foot", "Ft"],
          ".1IN": [".1IN", "0.1IN", ".1in", "0.1inch", ".1INCH", "0.1In"],
          "other": ["", "km", "s", "ms", "degC", "gAPI", "us", "lbs"]}
